@@ -23,7 +23,7 @@ Definition fast_det2 (m0_0 m0_1 m1_0 m1_1 : R) : R :=
 
 (* triangulation.fast_det; 1 path(s) *)
 Definition fast_det3 (m0_0 m0_1 m0_2 m1_0 m1_1 m1_2 m2_0 m2_1 m2_2 : R) : R :=
-  (((m0_2 * ((m1_0 * m2_1) - (m1_1 * m2_0))) + (m0_0 * ((m1_1 * m2_2) - (m1_2 * m2_1)))) - (m0_1 * ((m1_0 * m2_2) - (m1_2 * m2_0)))).
+  (((m0_0 * ((m1_1 * m2_2) - (m1_2 * m2_1))) - (m0_1 * ((m1_0 * m2_2) - (m1_2 * m2_0)))) + (m0_2 * ((m1_0 * m2_1) - (m1_1 * m2_0)))).
 
 (* triangulation.fast_2d_point_in_simplex; 4 path(s) *)
 Definition fast_2d_point_in_simplex (px py p0_0 p0_1 p1_0 p1_1 p2_0 p2_1 eps : R) : bool :=
@@ -292,17 +292,17 @@ Definition orientation3 (f0_0 f0_1 f0_2 f1_0 f1_1 f1_2 f2_0 f2_1 f2_2 o0 o1 o2 :
 
 (* triangulation.simplex_volume_in_embedding -- 3 vertices in the plane (Heron branch); 1 path(s) *)
 Definition sve_heron (p0_0 p0_1 p1_0 p1_1 p2_0 p2_1 : R) : R :=
-  let t1 := (p0_0 - p1_0) in
-  let t2 := (p0_1 - p1_1) in
+  let t1 := (p1_0 - p2_0) in
+  let t2 := (p1_1 - p2_1) in
   let t3 := (sqrt ((t1 * t1) + (t2 * t2))) in
   let t4 := (p0_0 - p2_0) in
   let t5 := (p0_1 - p2_1) in
   let t6 := (sqrt ((t4 * t4) + (t5 * t5))) in
-  let t7 := (p1_0 - p2_0) in
-  let t8 := (p1_1 - p2_1) in
+  let t7 := (p0_0 - p1_0) in
+  let t8 := (p0_1 - p1_1) in
   let t9 := (sqrt ((t7 * t7) + (t8 * t8))) in
-  let t10 := ((1 / 2) * ((t3 + t6) + t9)) in
-  (sqrt (((t10 * (t10 - t3)) * (t10 - t6)) * (t10 - t9))).
+  let t10 := (((t3 + t6) + t9) / 2) in
+  (sqrt ((((t10 - t3) * (t10 - t9)) * t10) * (t10 - t6))).
 
 (* triangulation.simplex_volume_in_embedding -- 2 vertices in R^3 (Cayley-Menger branch); 3 path(s) *)
 Definition sve_cm2 (p0_0 p0_1 p0_2 p1_0 p1_1 p1_2 : R) : res :=
@@ -310,7 +310,7 @@ Definition sve_cm2 (p0_0 p0_1 p0_2 p1_0 p1_1 p1_2 : R) : res :=
   let t2 := (p0_1 - p1_1) in
   let t3 := (p0_2 - p1_2) in
   let t4 := (((t1 * t1) + (t2 * t2)) + (t3 * t3)) in
-  let t5 := ((((1 * (1 * t4)) + (0 * (0 - (t4 * t4)))) - (1 * (0 - (t4 * 1)))) / 2) in
+  let t5 := ((((0 * (0 - (t4 * t4))) - (1 * (0 - (t4 * 1)))) + (1 * (1 * t4))) / 2) in
   if (Rltb t5 0)
   then
     if (Rltb ((-2535301200456459) / 2535301200456458802993406410752) t5)
@@ -449,13 +449,13 @@ Definition tri_volume2 (p0_0 p0_1 p1_0 p1_1 p2_0 p2_1 : R) : R :=
 
 (* triangulation.Triangulation.volume -- float() of the result is the identity on reals; 1 path(s) *)
 Definition tri_volume3 (p0_0 p0_1 p0_2 p1_0 p1_1 p1_2 p2_0 p2_1 p2_2 p3_0 p3_1 p3_2 : R) : R :=
-  let t1 := (p2_0 - p0_0) in
-  let t2 := (p3_1 - p0_1) in
-  let t3 := (p2_1 - p0_1) in
-  let t4 := (p3_0 - p0_0) in
-  let t5 := (p3_2 - p0_2) in
-  let t6 := (p2_2 - p0_2) in
-  ((Rabs ((((p1_2 - p0_2) * ((t1 * t2) - (t3 * t4))) + ((p1_0 - p0_0) * ((t3 * t5) - (t6 * t2)))) - ((p1_1 - p0_1) * ((t1 * t5) - (t6 * t4))))) / 6).
+  let t1 := (p2_1 - p0_1) in
+  let t2 := (p3_2 - p0_2) in
+  let t3 := (p2_2 - p0_2) in
+  let t4 := (p3_1 - p0_1) in
+  let t5 := (p2_0 - p0_0) in
+  let t6 := (p3_0 - p0_0) in
+  ((Rabs ((((p1_0 - p0_0) * ((t1 * t2) - (t3 * t4))) - ((p1_1 - p0_1) * ((t5 * t2) - (t3 * t6)))) + ((p1_2 - p0_2) * ((t5 * t4) - (t1 * t6))))) / 6).
 
 (* learnerND.volume; 1 path(s) *)
 Definition nd_volume1 (p0_0 p1_0 : R) : R :=
@@ -467,13 +467,13 @@ Definition nd_volume2 (p0_0 p0_1 p1_0 p1_1 p2_0 p2_1 : R) : R :=
 
 (* learnerND.volume; 1 path(s) *)
 Definition nd_volume3 (p0_0 p0_1 p0_2 p1_0 p1_1 p1_2 p2_0 p2_1 p2_2 p3_0 p3_1 p3_2 : R) : R :=
-  let t1 := (p1_0 - p3_0) in
-  let t2 := (p2_1 - p3_1) in
-  let t3 := (p1_1 - p3_1) in
-  let t4 := (p2_0 - p3_0) in
-  let t5 := (p2_2 - p3_2) in
-  let t6 := (p1_2 - p3_2) in
-  ((Rabs ((((p0_2 - p3_2) * ((t1 * t2) - (t3 * t4))) + ((p0_0 - p3_0) * ((t3 * t5) - (t6 * t2)))) - ((p0_1 - p3_1) * ((t1 * t5) - (t6 * t4))))) / 6).
+  let t1 := (p1_1 - p3_1) in
+  let t2 := (p2_2 - p3_2) in
+  let t3 := (p1_2 - p3_2) in
+  let t4 := (p2_1 - p3_1) in
+  let t5 := (p1_0 - p3_0) in
+  let t6 := (p2_0 - p3_0) in
+  ((Rabs ((((p0_0 - p3_0) * ((t1 * t2) - (t3 * t4))) - ((p0_1 - p3_1) * ((t5 * t2) - (t3 * t6)))) + ((p0_2 - p3_2) * ((t5 * t4) - (t1 * t6))))) / 6).
 
 (* learnerND.uniform_loss; 1 path(s) *)
 Definition nd_uniform_loss2 (p0_0 p0_1 p1_0 p1_1 p2_0 p2_1 y0 y1 y2 scale : R) : R :=
